@@ -15,6 +15,11 @@ def main():
         if r.returncode != 0:
             print("PATCH FAILED:", r.stdout[-500:]); return 2
         env = dict(os.environ); env["VERIF_REPO"] = scratch
+        # the evidence files describe runs on /repo: a run against the scratch tree must not leave its record behind
+        saved = {}
+        for c in checks:
+            ev = os.path.join("/verif/evidence", c + ".json")
+            if os.path.exists(ev): saved[ev] = open(ev).read()
         for c in checks:
             r = subprocess.run([sys.executable, "/verif/check.py", c], env=env, stdout=subprocess.PIPE, stderr=subprocess.PIPE, text=True, timeout=3600)
             vio = [l for l in r.stdout.split("\n") if l.startswith("VIOLATION")]
@@ -22,6 +27,8 @@ def main():
             print("%s rc=%d %s" % (c, r.returncode, vio[0] if vio else "(no violation)"))
             for w in why[:3]: print("    " + w[:300])
     finally:
+        for ev, txt in (saved if "saved" in dir() else {}).items():
+            open(ev, "w").write(txt)
         shutil.rmtree(scratch, ignore_errors=True)
         # restore generated tables from the real repository
         subprocess.run([sys.executable, "/verif/tools/gen_tables.py", "/repo"], stdout=subprocess.DEVNULL)
